@@ -579,7 +579,15 @@ class C07(vlib.Driver):
                 ops.append(f"CLoad {op[1]}%nat")
             elif k == "load_into":
                 ops.append(f"CLoadInto {op[1]}%nat {op[2]}%nat")
-        obl = [evo.coq_obs(st, reg, tab) for st in obs["states"]]
+        # the state after an operation inside a run of consecutive learn / act operations is not emitted (the model still steps;
+        # the state at the end of the run is compared, and the value refinement is threaded through the whole history)
+        executed = case["ops"][:nst]
+
+        def emitted(t):          # t = index of the state (0 = initial)
+            if t == 0 or t == nst:
+                return True
+            return not (executed[t - 1][0] in ("learn", "act") and executed[t][0] in ("learn", "act"))
+        obl = ["(Some " + evo.coq_obs(st, reg, tab) + ")" if emitted(t) else "None" for t, st in enumerate(obs["states"])]
         lrt = ["[" + "; ".join("[" + "; ".join("[" + "; ".join(evo._q(x) for x in d["lrs"]) + "]" for d in ag["struct"]["opts"].values()) + "]"
                                for ag in st) + "]" for st in obs["states"]]
         nets = "[" + "; ".join(_coq_str(n) for n in obs["names"]["nets"]) + "]"
